@@ -103,4 +103,11 @@ CHECKS.update({
   "note": "Completion of compatible pairs is reported (classes), not asserted, except for the lossless controls. Hostile TLS beyond the listed scenarios is C05/C11's subject. Certificate date checks use the pinned clock of the harness only for aioquic's own check; OpenSSL's chain verification uses the real clock, so the expired / not-yet-valid fixtures are decades away from both.",
  },
 })
+CHECKS.update({
+ "C04": {
+  "technique": "exhaustive argument grids and Hypothesis-generated call sequences / datagrams / configurations executed against a clang AddressSanitizer+UBSan build of the current C sources, with an argument-derived access contract and known-answer usability checks as oracles",
+  "text": "Every task runs in a child interpreter that loads an ASan+UBSan build of the current _buffer.c/_crypto.c (PYTHONMALLOC=malloc so that Python bytes objects are individual heap blocks); a sanitizer report stops the child and the parent reports the case the child had recorded in a memory-mapped file. Grids: AEAD.encrypt/decrypt over plaintext/ciphertext lengths 0..scratch+100 (garbage and genuine), HeaderProtection.apply over header x pn-length bits x payload lengths, HeaderProtection.remove over (packet length, offset) pairs incl. 2^31..2^32 offsets, for the three cipher suites; a call that returns normally although a range it must touch lies outside its argument or the fixed scratch (size read from the source) violates the contract, and after rejected calls a known-answer seal/protect/unprotect/open on the same object must still equal what the fresh object produced. Buffer: every method x boundary integers x capacities x positions (exhaustive over the small sets) and generated sequences of <= 40 calls on capacities 0..64 against a bytearray model: an out-of-bounds access must be refused, a refused call must leave position and capacity unchanged, and a divergence from the model counts only when it disappears once the refused calls are left out. Library paths: generated datagrams (lying token/Length varints, CID lengths to 255, genuine packets sealed by the reference implementation at sizes around the scratch size, sizes to 65535) into endpoints in six states, and handshake + bulk transfer + DATAGRAM frames for max_datagram_size 1200..65535, with contract-checking proxies around every AEAD/HeaderProtection call the library makes.",
+  "note": "Blind spot (stated in DESIGN.md): an out-of-bounds *read* performed inside uninstrumented libcrypto that is followed by a rejection (e.g. decrypt of < 16 bytes without the lower-bound test) is visible neither to ASan nor to the contract. Functional disagreement with the reference codec/cipher is counted as a class, not reported here (C02/C17 decide it). Constructors with cipher names the library never uses are out of scope.",
+ },
+})
 PENDING = {}
